@@ -75,7 +75,7 @@ Imp(p, a) == [path |-> p, alias |-> a]
 
 GoImportAlphabet == {Imp("fmt", ""), Imp("net/http", "h")} \cup (IF Wide THEN {Imp("encoding/json", "")} ELSE {})
 
-TNames == IF Wide THEN {"A", "B", "C"} ELSE {"A", "B"}
+TNames == IF Wide THEN {"A", "B", "c"} ELSE {"A", "b"}       \* exported and unexported type names
 Ptrs(m) == IF Wide THEN BOOLEAN ELSE {m = "M"}
 GoStructure ==
   {Struct(n, fs) : n \in TNames, fs \in {<<>>, <<IntF(<<"x">>)>>}} \cup
